@@ -406,9 +406,79 @@ def equal_targets_case(case):
     return dict(reproduced=bool(violated), violated=violated[:6])
 
 
+def legacy_noop_remove_case(case):
+    """C16: a removal request (extended name) for a handler that was never registered changes nothing: the registered handler
+    keeps tracking reachability exactly like observe, and its own removal stops all calls."""
+    from traits.api import HasTraits, Instance, Int, List
+    violated = []
+
+    class Leaf(HasTraits):
+        value = Int()
+
+    class Child(HasTraits):
+        leaf = Instance(Leaf)
+
+    class Root(HasTraits):
+        child = Instance(Child)
+    NAME = "child.leaf.value"
+    for others in (0, 1):
+        legacy, obs = [], []
+
+        def record(obj, name, old, new):
+            legacy.append((id(obj), name, new))
+
+        def second(obj, name, old, new):
+            pass
+
+        def unrelated(obj, name, old, new):
+            raise AssertionError("never registered")
+
+        def observer(event):
+            obs.append((id(event.object), event.name, event.new))
+
+        def check(step):
+            if legacy != obs:
+                violated.append("%s (%d other handler(s) under the name): on_trait_change saw %d call(s) %r, observe %d %r" % (
+                    step, others, len(legacy), [c[1:] for c in legacy], len(obs), [c[1:] for c in obs]))
+            del legacy[:], obs[:]
+        leaf1 = Leaf()
+        child1 = Child(leaf=leaf1)
+        root = Root(child=child1)
+        root.on_trait_change(record, NAME)
+        if others:
+            root.on_trait_change(second, NAME)
+        root.observe(observer, NAME)
+        leaf1.value = 1
+        check("initial leaf")
+        root.on_trait_change(unrelated, NAME, remove=True)          # matches nothing
+        leaf1.value = 2
+        check("after a removal request that matches nothing")
+        leaf2 = Leaf()
+        child1.leaf = leaf2
+        check("reassign child.leaf")
+        leaf1.value = 3
+        check("detached leaf")
+        leaf2.value = 4
+        check("attached leaf")
+        child2 = Child(leaf=Leaf())
+        root.child = child2
+        check("reassign root.child")
+        leaf2.value = 5
+        check("leaf of the detached child")
+        child2.leaf.value = 6
+        check("leaf of the attached child")
+        root.on_trait_change(record, NAME, remove=True)
+        root.observe(observer, NAME, remove=True)
+        child2.leaf.value = 7
+        leaf2.value = 8
+        root.child = Child(leaf=Leaf())
+        check("after removing the registration")
+    return dict(reproduced=bool(violated), violated=violated[:8])
+
+
 def main():
     case = json.loads(sys.stdin.read())
-    out = {"atomic": atomic_case, "reachability": reachability_case, "legacy": legacy_case, "falsy_root": falsy_root_case, "equal_targets": equal_targets_case}[case["family"]](case)
+    out = {"atomic": atomic_case, "reachability": reachability_case, "legacy": legacy_case, "falsy_root": falsy_root_case, "equal_targets": equal_targets_case, "legacy_noop_remove": legacy_noop_remove_case}[case["family"]](case)
     print(json.dumps(out, default=repr))
 
 
